@@ -126,6 +126,13 @@ def _configs():
 CONFIGS = _configs()
 
 
+def _pick_method(ip, val, k):
+    ms = list(METHODS)
+    if ip not in SOAP_FAMILY and val != 'lxml':
+        ms.append('fmt')     # custom DateTime format: not for SOAP / xs:dateTime
+    return ms[k % len(ms)]
+
+
 def gen_cases(tier, verif_seed):
     rounds = {'quick': 48, 'thorough': 480}[tier]
     per_batch = {'quick': 140, 'thorough': 400}[tier]
@@ -140,7 +147,7 @@ def gen_cases(tier, verif_seed):
                     'seed': seed,
                     'useed': derive(seed, 'universe') & 0xffffffff,
                     'in_prot': ip, 'validator': val, 'route': route,
-                    'method': METHODS[(i + rnd) % len(METHODS)],
+                    'method': _pick_method(ip, val, i + rnd),
                     'mode': mode, 'n': per_batch,
                     'ops': None,        # explicit list in replay files
                 }
